@@ -298,6 +298,7 @@ def ob_binop_mod(crate, fname, modulus, spec, tag, nargs=2, pre="canonical"):
         for ctx, (dom, l2, vals, r) in live:
             R = val(dom, r)
             hy = ctx.facts + ctx.pc
+            assert_sat(stats, hy, fname + " path")
             k = z3.Int("k!spec")
             goal = z3.And(R >= 0, R < modulus, (R - spec(*vals)) % modulus == 0)
             discharge(stats, hy, goal, "%s == spec mod m and canonical" % fname, timeout_s=60)
